@@ -628,6 +628,11 @@ func (in *Interp) exec(t *rapid.T, inv *Invocation, body []*Stmt, where string, 
 			acts := map[string]func(*rapid.T){}
 			for i := range s.Acts {
 				a := s.Acts[i]
+				if !s.ViaSM && len(in.env.set) > 0 && in.env.set[0] && in.env.vals[0][0]%3 == 1 {
+					// the set of action names may depend on what the test case drew before (same number of actions, same
+					// order, other names): nothing learnt about the actions of one test case may be used for another
+					a.Name += "2"
+				}
 				acts[a.Name] = func(t *rapid.T) {
 					inv.unwinding = ""
 					drawsBefore := len(inv.Draws) + 1
